@@ -34,9 +34,9 @@ structure PCfg where
 
 /-- The tree as of 8f80b72 (none of them). -/
 def PCfg.pinned : PCfg := ⟨false, false, false, false⟩
-/-- /repo as of a0ebef4: the UnitFromProto guard is in; the processor is as upstream left it
-(the diffs in /verif/proposed-fixes are not applied). -/
-def PCfg.current : PCfg := ⟨true, false, false, false⟩
+/-- /repo: all four are in — a0ebef4 (UnitFromProto guard), 5ab3121 (no poisoning), d8826cb (local
+unit from a present unit), 76dcbab (publisher key check). -/
+def PCfg.current : PCfg := ⟨true, true, true, true⟩
 def PCfg.repaired : PCfg := ⟨true, true, true, true⟩
 
 /-! ## unit.go: wire form -/
